@@ -268,6 +268,7 @@ class _LandmarksConditional:
         """
         x = ensure_2d(x)
         xu = ensure_2d(xu)
+        noise_sigma, noise_factor = sigma, y_cov_factor
         Kuf = cov_func(xu, x)
         L = _get_L(xu, cov_func, jitter)
         A = solve_triangular(L, Kuf, lower=True)
@@ -304,8 +305,9 @@ class _LandmarksConditional:
         self.L = L
         self._state_variables.add("L")
 
-        if y_cov_factor is None:
-            y_cov_factor = _sigma_to_y_cov_factor(sigma, y_cov_factor, xu.shape[0])
+        # The input noise acts on the observations: the factor that is propagated to the
+        # weights has one row per cell, not one per landmark.
+        y_cov_factor = _sigma_to_y_cov_factor(noise_sigma, noise_factor, x.shape[0])
 
         C = solve_triangular(L_B, dot(A, y_cov_factor), lower=True)
         Z = solve_triangular(L_B.T, C)
